@@ -32,6 +32,7 @@ pub fn run(ctx: &mut Ctx) {
         let tmax = if i % 2 == 0 { tmax } else { 5 };
         let mut o = if i % 4 == 0 { gen::Opts::all(tmax) } else { gen::Opts::basic(tmax) };
         o.allow_never = false;
+        o.allow_loose = false; // realisable (super-additive) delta-min prefixes only, see DESIGN.md §3.2
         let tua = gen_task(&mut ctx.rng, &o, 4, true);
         if gen::is_empty_model(&tua["a"]) {
             continue;
@@ -114,6 +115,7 @@ pub fn run_ros2(ctx: &mut Ctx) {
         let tm = if i % 2 == 0 { tmax } else { 5 };
         let mut o = if i % 4 == 0 { gen::Opts::all(tm) } else { gen::Opts::basic(tm) };
         o.allow_never = false;
+        o.allow_loose = false; // realisable (super-additive) delta-min prefixes only, see DESIGN.md §3.2
         let nt = ctx.rng.gen_range(1..=3);
         let ts: Vec<Value> = (0..nt).map(|_| gen_task(&mut ctx.rng, &o, 3, true)).collect();
         if gen::is_empty_model(&ts[0]["a"]) {
